@@ -583,6 +583,8 @@ func c18Variants(v appPayload) []appPayload {
 
 func runC18(r *engine.Run) {
 	r.Rule = "E1 per payload type of the four application-layer packages (clock sync, multicast setup, fragmentation, firmware management; every CID x direction of the package registries): value -> bytes -> value over the complete product of all in-width field values when that product is <= 200 000 (fields of <= 8 bits, flags and 4-bit masks completely; wider integers over {0,1,max,0x55..,0xAA.., every single bit}; byte arrays over 3 fillers), otherwise per-field complete sweeps with the remaining fields at each of three base tuples; content-dependent shapes (McGroupStatusAns items, Mc*SessionAns TimeToStart, DataFragment payload lengths, DevUpgradeImageAns) by hand-written complete families; obligations: no panic, no refusal, len(bytes) = Size(), decode(encode(v)) = v, the same through the Command framing. Sequences: every sequence of <= 3 commands over the direction's command set x 2 canonical values each and <= 6 commands over a 4-command sub-alphabet, concatenated and decoded by Commands.UnmarshalBinary. Multicast keys: key(3) x McAddr (3 values + 32 single-bit walks) against the TS005 AES derivations. Non-trivial: a value that was encoded and compared after decoding."
+	r.Rule += " E3 (schedules): the multicast key derivations for three groups from three threads at once, every interleaving of the instrumented accesses; every thread derives the keys it derives alone."
+	mergeSchedSummary(r, "C18")
 	r.Rule += historyRule + " Application-layer alphabet per package and direction: encode of every command (CIDs x 2 values), decode of its bytes, decode of the bytes without the last one (refused); all ordered pairs; multicast key derivations as calls of the multicastsetup alphabet."
 	r.Assume("field widths are those of the TS003/TS004/TS005/TS006 specifications (table in mc/props/c18.go); values outside the width are not in the property's scope")
 	r.Assume("a DataFragment command takes the rest of the payload by specification, so it only appears last in the enumerated sequences")
